@@ -1,10 +1,10 @@
 (* C13 -- Composition of flows and velocity fields obeys its algebra.  Statements only.
    compose{2,3} = model of compose_flows (Model/Flow.v, on the F.grid_sample model of Model/Sampler.v); gen_compose_* /
-   gen_bch_terms / gen_logv_* are regenerated from core/flow.py on every run (Gen/FlowAlg.v), gen_lie2/3 by the C12 unit
+   gen_bch_terms / gen_logv_* are regenerated from core/flow.py on every run (Gen/FlowAlg.v, Gen/FlowBCH.v), gen_lie2/3 by the C12 unit
    (Gen/FlowDeriv.v). *)
 From Coq Require Import ZArith QArith Qcanon List Lia.
 From DV Require Import Base.Field Base.FieldFacts Base.LinAlg Base.QcInst Model.Sampler Model.SamplerQc Model.Flow Model.FlowQc
-  Model.BCH Model.Lie Gen.FlowAlg Gen.FlowDeriv Proofs.C11Interp Proofs.C11Compose Proofs.C11Compose3 Proofs.C11Expv Proofs.C11Gen
+  Model.BCH Model.Lie Gen.FlowAlg Gen.FlowBCH Gen.FlowDeriv Proofs.C11Interp Proofs.C11Compose Proofs.C11Compose3 Proofs.C11Expv Proofs.C11Gen
   Proofs.C13Compose Proofs.C13Lie Proofs.C13BCH.
 Import ListNotations.
 
